@@ -138,8 +138,26 @@ fn contents<T: Elem>(s: &Stack<T>) -> Vec<T> {
     v
 }
 
-fn underflow(req: usize, present: usize) -> StackError {
-    StackError::Underflow { num_requested: req, num_present: present }
+/// The model's view of a stack error. The real error is read through patterns with `..`, so that a maintainer may
+/// add fields or variants to `StackError` without breaking the harness.
+#[derive(Debug, Clone, PartialEq, Eq)]
+enum MErr {
+    Underflow { requested: usize, present: usize },
+    Overflow,
+    Other(String),
+}
+
+fn merr(e: &StackError) -> MErr {
+    #[allow(unreachable_patterns)]
+    match e {
+        StackError::Underflow { num_requested, num_present, .. } => MErr::Underflow { requested: *num_requested, present: *num_present },
+        StackError::Overflow { .. } => MErr::Overflow,
+        other => MErr::Other(format!("{other:?}")),
+    }
+}
+
+fn underflow(req: usize, present: usize) -> MErr {
+    MErr::Underflow { requested: req, present }
 }
 
 fn is_overflow<R>(r: &Result<R, StackError>) -> bool {
@@ -195,7 +213,7 @@ fn run_history<T: Elem>(sc: &Sc, obs: &mut Obs) -> Vec<Violation> {
                     }
                 }
                 Op::Pop => {
-                    let r = st.pop();
+                    let r = st.pop().map_err(|e| merr(&e));
                     let exp = m.vals.pop().ok_or_else(|| {
                         faults += 1;
                         obs.hit("fault.underflow");
@@ -209,7 +227,7 @@ fn run_history<T: Elem>(sc: &Sc, obs: &mut Obs) -> Vec<Violation> {
                     }
                 }
                 Op::Pop2 => {
-                    let r = st.pop2();
+                    let r = st.pop2().map_err(|e| merr(&e));
                     let exp = if len >= 2 {
                         let x = m.vals.pop().unwrap();
                         let y = m.vals.pop().unwrap();
@@ -225,7 +243,7 @@ fn run_history<T: Elem>(sc: &Sc, obs: &mut Obs) -> Vec<Violation> {
                     }
                 }
                 Op::Pop3 => {
-                    let r = st.pop3();
+                    let r = st.pop3().map_err(|e| merr(&e));
                     let exp = if len >= 3 {
                         let x = m.vals.pop().unwrap();
                         let y = m.vals.pop().unwrap();
@@ -242,7 +260,7 @@ fn run_history<T: Elem>(sc: &Sc, obs: &mut Obs) -> Vec<Violation> {
                     }
                 }
                 Op::Top => {
-                    let r = st.top().cloned();
+                    let r = st.top().cloned().map_err(|e| merr(&e));
                     let exp = m.vals.last().cloned().ok_or_else(|| {
                         faults += 1;
                         obs.hit("fault.underflow");
@@ -253,7 +271,7 @@ fn run_history<T: Elem>(sc: &Sc, obs: &mut Obs) -> Vec<Violation> {
                     }
                 }
                 Op::Top2 => {
-                    let r = st.top2().map(|(a, b)| (a.clone(), b.clone()));
+                    let r = st.top2().map(|(a, b)| (a.clone(), b.clone())).map_err(|e| merr(&e));
                     let exp = if len >= 2 {
                         Ok((m.vals[len - 1].clone(), m.vals[len - 2].clone()))
                     } else {
@@ -266,7 +284,7 @@ fn run_history<T: Elem>(sc: &Sc, obs: &mut Obs) -> Vec<Violation> {
                     }
                 }
                 Op::Top3 => {
-                    let r = st.top3().map(|(a, b, c)| (a.clone(), b.clone(), c.clone()));
+                    let r = st.top3().map(|(a, b, c)| (a.clone(), b.clone(), c.clone())).map_err(|e| merr(&e));
                     let exp = if len >= 3 {
                         Ok((m.vals[len - 1].clone(), m.vals[len - 2].clone(), m.vals[len - 3].clone()))
                     } else {
@@ -279,7 +297,7 @@ fn run_history<T: Elem>(sc: &Sc, obs: &mut Obs) -> Vec<Violation> {
                     }
                 }
                 Op::Discard(n) => {
-                    let r = st.discard(*n);
+                    let r = st.discard(*n).map_err(|e| merr(&e));
                     let exp = if *n <= len {
                         m.vals.truncate(len - n);
                         if *n > 0 {
